@@ -3,7 +3,7 @@
    LR/Automaton_proofs.v about the models LR/Driver.v (ParserState.feed_token) and
    LR/Automaton.v (lalr_analysis.py). *)
 From Coq Require Import List Arith Bool ZArith.
-From LV Require Import Cfg.Grammar LR.Driver LR.Driver_proofs LR.Automaton LR.Automaton_proofs LR.Automaton_wf LR.Automaton_la LR.Automaton_complete LR.La_complete LR.Lalr_complete.
+From LV Require Import Cfg.Grammar LR.Driver LR.Driver_proofs LR.Automaton LR.Automaton_proofs LR.Automaton_wf LR.Automaton_la LR.Automaton_complete LR.La_complete LR.Lalr_complete LR.Lr1Merge LR.Lr1Merge_proofs.
 Import ListNotations.
 
 (* "accepts only sentences", for EVERY table in which a reduce by r is only offered in states
@@ -195,11 +195,52 @@ Proof.
 Qed.
 Print Assumptions C02_automaton_complete.
 
-(* NOT PROVED: "the DeRemer-Pennello look-ahead sets are exactly the canonical-LR(1)-merge
-   look-aheads" (needs a Coq model of canonical LR(1)); validated per grammar by the Python
-   LR(1)-merge oracle.  What IS proved about LA: least solution of the equations
-   (C02_la_closure), enough look-aheads for every derivation tree (C02_la_complete_child and C02_la_complete_reduce), and
-   never too many for soundness (C02_model_table_sound needs nothing about LA). *)
+(* ---- the look-ahead sets and the canonical LR(1) construction ("the LALR(1) automaton") ----
+   Canonical LR(1) is specified inductively, path-wise (LR/Lr1Merge_proofs.v): the item
+   [rule i, dot d, look-ahead a] is valid for the symbol string g - initial item [$root -> . start, $END],
+   goto, closure with FIRST of the remainder followed by the parent's look-ahead.  The LALR(1)
+   look-ahead set of a complete item in the LR(0) state q is the union over all g with goto*(0,g) = q.
+   Inclusion 1 (every grammar): every canonical LR(1) look-ahead is a look-ahead of the model. *)
+Theorem C02_lr1_subset_la (rules : list rule) (tEND fuel : nat) (A : lr0) (r0 rootnt start : nat)
+        (g : list symbol) (i a q : nat) :
+  build_lr0 rules [r0] fuel = Some A ->
+  rule_at rules r0 = mkRule rootnt [NT start] ->
+  lr1_valid rules r0 tEND g i (length (rhs (rule_at rules i))) a -> i <> r0 ->
+  goto_star A 0 g = Some q ->
+  In (q, a, i) (la_triples (compute_relations rules [r0] tEND A)).
+Proof. exact (fun HB Hr0 => lr1_subset_la rules tEND fuel A r0 rootnt start HB Hr0 g i a q). Qed.
+Print Assumptions C02_lr1_subset_la.
+
+(* ... and the same for the EXECUTABLE canonical LR(1) construction of LR/Lr1Merge.v (FIRST by
+   bounded iteration, closure to a fixed point, fuelled BFS): every state it reaches consists of
+   valid items for one symbol string g, so each of its complete-item look-aheads is a look-ahead
+   of the model at the LR(0) state goto*(0, g), whose item set contains the state's core. *)
+Theorem C02_lr1_exec_subset_la (rules : list rule) (tEND fuel : nat) (A : lr0) (r0 rootnt start fuel1 : nat)
+        (S1 : list (list item1)) (J : list item1) :
+  build_lr0 rules [r0] fuel = Some A -> r0 < length rules ->
+  rule_at rules r0 = mkRule rootnt [NT start] ->
+  states1 rules r0 tEND fuel1 = Some S1 -> In J S1 ->
+  exists g, forall i a, In (i, length (rhs (rule_at rules i)), a) J -> i <> r0 ->
+    exists q, goto_star A 0 g = Some q /\
+              (forall it, In it J -> In (fst it) (closure_of A q)) /\
+              In (q, a, i) (la_triples (compute_relations rules [r0] tEND A)).
+Proof. exact (exec_lr1_subset_la rules tEND fuel A r0 rootnt start fuel1 S1 J). Qed.
+Print Assumptions C02_lr1_exec_subset_la.
+
+(* Inclusion 2 - NOT PROVED, kept as the full statement.  It needs productive rule bodies: with a
+   non-productive symbol after the dot the DeRemer-Pennello sets are strictly larger than the
+   canonical LR(1) ones (found by the search: start: D | C a C | A a; a: b start b; b: a a).
+   It is validated on every run, inside Coq: check_lr1 (LR/Lr1Merge.v) evaluates the executable
+   canonical-LR(1)-merge construction and the model's look-ahead sets by vm_compute on every
+   reduced grammar of the streams and compares them set by set. *)
+Definition C02_la_subset_lr1_full_statement : Prop :=
+  forall (rules : list rule) (tEND fuel : nat) (A : lr0) (r0 rootnt start : nat) (q a i : nat),
+  build_lr0 rules [r0] fuel = Some A ->
+  rule_at rules r0 = mkRule rootnt [NT start] ->
+  (forall r, In r rules -> ~ In (NT rootnt) (rhs r)) ->
+  (forall r d, In r rules -> exists u, derives rules nat (tmatch nat (fun k => k)) (skipn d (rhs r)) u) ->
+  In (q, a, i) (la_triples (compute_relations rules [r0] tEND A)) ->
+  exists g, goto_star A 0 g = Some q /\ lr1_valid rules r0 tEND g i (length (rhs (rule_at rules i))) a.
 
 (* Non-vacuity: the grammar of finding F13 (LALR(1), shared core {b: B., e2: B.}):
      start: a E | c | Y e2 D    a: Y b    c: Y a D    b: B    e2: B
